@@ -21,6 +21,7 @@ mod sdd;
 mod table;
 mod unitprop;
 mod vtree;
+mod wmc;
 
 pub type CaseResult = Result<(), String>;
 
@@ -41,6 +42,7 @@ pub fn run_case(c: &Value) -> CaseResult {
         "sdd_prog" => sdd::run(c),
         "unitprop" => unitprop::run(c),
         "lat_eu" | "lat_real" | "lat_bool" | "lat_rational" | "lat_complex" => lattice::run(c),
+        "wmc" => wmc::run(c),
         "compile_expr" | "compile_cnf" | "compile_sdd" | "compile_wide" => compile::run(c),
         _ => Err(format!("unknown case kind {kind}")),
     });
@@ -100,6 +102,7 @@ fn main() {
                 "unitprop" => unitprop::candidates(seed),
                 "lattice" => lattice::candidates(seed),
                 "compile" => compile::candidates(seed),
+                "wmc" => wmc::candidates(seed),
                 _ => vec![],
             };
             let mut tried = 0usize;
